@@ -36,6 +36,7 @@ type state struct {
 
 	env   *Env        // The configured Stick environment.
 	scope *scopeStack // Handles execution scope.
+	depth int         // Expressions being evaluated, see maxExecDepth.
 }
 
 // newState creates a new template execution state, ready for use.
@@ -353,6 +354,7 @@ func (s *state) walk(node parse.Node) error {
 			return err
 		}
 		si := newState(tpl, s.out, ctx, s.env)
+		si.depth = s.depth
 		tree, err := s.env.load(tpl)
 		if err != nil {
 			return err
@@ -639,7 +641,24 @@ func (s *state) walkFromNode(node *parse.FromNode) error {
 }
 
 // Method evalExpr evaluates the given expression, returning a Value or error.
-func (s *state) evalExpr(exp parse.Expr) (v Value, e error) {
+// maxExecDepth bounds how deep the evaluation of expressions may nest at run
+// time. The parser bounds each tree, but depths add up along a chain of macro
+// calls, includes and block() calls; without a bound a long enough chain
+// exhausts the stack, which ends the process instead of the execution.
+const maxExecDepth = 100000
+
+func (s *state) evalExpr(exp parse.Expr) (Value, error) {
+	s.depth++
+	if s.depth > maxExecDepth {
+		s.depth--
+		return nil, errors.New("evaluation nested too deeply")
+	}
+	v, err := s.eval(exp)
+	s.depth--
+	return v, err
+}
+
+func (s *state) eval(exp parse.Expr) (v Value, e error) {
 	switch exp := exp.(type) {
 	case *parse.NullExpr:
 		return nil, nil
